@@ -298,6 +298,12 @@ async fn scatter_sql_over_table(
             elapsed_ms: started.elapsed().as_secs_f64() * 1000.0,
             local: true,
         });
+        // A rowless plain select returns no batches at all; keep its schema as
+        // a zero-row placeholder, exactly as `decode_ipc` does for a remote
+        // shard, so the merge stage always has a schema to work with.
+        if r.batches.is_empty() {
+            batches.push(RecordBatch::new_empty(r.schema.clone()));
+        }
         batches.extend(r.batches);
         return Ok((batches, contributions));
     }
@@ -356,6 +362,11 @@ async fn scatter_sql_over_table(
             elapsed_ms: elapsed.as_secs_f64() * 1000.0,
             local: true,
         });
+        // Same placeholder rule as above: the initiator's own shard may be the
+        // only active one, and an empty answer from it must not lose the schema.
+        if r.batches.is_empty() {
+            batches.push(RecordBatch::new_empty(r.schema.clone()));
+        }
         batches.extend(r.batches);
     }
 
